@@ -60,7 +60,11 @@ def table_cases(draw):
     return {"seed": draw(st.integers(0, 2**31)), "grid": grid, "widths": widths, "shape": shape, "p": p,
             "x0": draw(st.sampled_from([0.0, -3.0, 1e3])), "scale": 10 ** draw(st.one_of(st.floats(-3, 3), st.sampled_from([-10.0, 8.0, 10.0]))),
             # tables in any units (a normalised density of a parameter of natural scale 1e10 has values ~1e-10), normalised or not
-            "pscale": 10 ** draw(st.one_of(st.floats(-3, 3), st.sampled_from([-14.0, -12.0, -9.0, 9.0, 12.0])))}
+            "pscale": 10 ** draw(st.one_of(st.floats(-3, 3), st.sampled_from([-14.0, -12.0, -9.0, 9.0, 12.0]))),
+            # a table of counts (a histogram) held in an integer array - unsigned ones are non-negative by construction - on a grid of
+            # whole numbers that may be held in an integer array as well
+            "table_form": draw(st.sampled_from([None, None, None, "uint8", "uint16", "uint32", "int8", "int64", "float32"])),
+            "grid_form": draw(st.sampled_from([None, None, "int64", "uint8", "int16"]))}
 
 
 def pw_cdf_factory(x, p):
@@ -84,11 +88,22 @@ def pw_cdf_factory(x, p):
 def body_tables(case, ctx):
     x = case["x0"] * case["scale"] + np.concatenate([[0.0], np.cumsum(case["widths"])]) * case["scale"]
     p = np.array(case["p"], dtype=float) * case["pscale"]
+    x_arg, p_arg = x.copy(), p.copy()
+    if case.get("table_form"):
+        # counts: whole numbers up to 100 (the reference below uses the same numbers as floats)
+        p = np.round(np.array(case["p"], dtype=float) / max(case["p"]) * 100.0)
+        p_arg = p.astype(case["table_form"])
+        if case.get("grid_form") and case["grid"] == "uniform":
+            x = np.arange(x.size, dtype=float) + (3.0 if case["grid_form"] != "int16" else -3.0)
+            x_arg = x.astype(case["grid_form"])
+        else:
+            x_arg = x.copy()
+        ctx.event("table held as " + case["table_form"] + (", grid as " + str(x_arg.dtype) if x_arg.dtype != float else ""))
     N = 4000 if ctx.tier == "quick" else 40000
     if ctx.replay:
         N = 40000
     with np.errstate(all="ignore"):
-        draws = np.asarray(piecewise_linear_sample(x.copy(), p.copy(), N), dtype=float)
+        draws = np.asarray(piecewise_linear_sample(x_arg, p_arg, N), dtype=float)
     if draws.shape != (N,):
         raise Violation("table-shape", f"{draws.shape} draws returned for n_samples={N}")
     if not np.all(np.isfinite(draws)) or draws.min() < x[0] or draws.max() > x[-1]:
